@@ -171,7 +171,16 @@ fn prop_sha1(c: &FilesCase, ctx: &Ctx) -> PResult {
     let mut paths = vec![];
     let mut contents = vec![];
     for (i, (len, seed)) in c.files.iter().enumerate() {
-        let p = dir.join(format!("f{:03}.bin", i));
+        // a quarter of the later files carry the base name of the first one, in a folder of their own: an entry
+        // describes the file at its path, whatever other files of the batch are called
+        let p = if i > 0 && (*seed >> 8) % 4 == 0 {
+            let sub = dir.join(format!("sub{}", i));
+            std::fs::create_dir_all(&sub).map_err(|e| Failure { slug: "harness-io".into(), msg: e.to_string() })?;
+            ctx.class("sha1:same-base-name-in-another-folder");
+            sub.join("f000.bin")
+        } else {
+            dir.join(format!("f{:03}.bin", i))
+        };
         let data = file_content(*len, *seed);
         std::fs::write(&p, &data).map_err(|e| Failure { slug: "harness-io".into(), msg: e.to_string() })?;
         paths.push(p.to_str().unwrap().to_string());
